@@ -136,12 +136,11 @@ class BasicForm(Expr):
 
         return self._kwargs
 
-    def _update_free_variables(self, **kwargs):
-
-        expr = self.expr
-
+    def _free_variables_subs(self, **kwargs):
+        """dictionary {free variable: new value} of the keyword arguments of a call"""
+        subs = {}
         if not kwargs:
-            return expr
+            return subs
 
         # ... use free variables if given and available
         _kwargs = self.get_free_variables()
@@ -150,8 +149,19 @@ class BasicForm(Expr):
             if not(name in _kwargs_names):
                 raise ValueError('{} is not a free variable'.format(name))
 
-            var = _kwargs[name]
-            expr = expr.xreplace({var: v})
+            subs[_kwargs[name]] = v
         # ...
+
+        return subs
+
+    def _update_free_variables(self, **kwargs):
+
+        expr = self.expr
+
+        if not kwargs:
+            return expr
+
+        # all free variables are replaced at once
+        expr = expr.xreplace(self._free_variables_subs(**kwargs))
 
         return expr
